@@ -116,9 +116,9 @@ type world struct {
 	store   storage.StateStorer
 	rec     *recCS
 	// model
-	last    map[common.Address]*big.Int // highest accepted payout per stated issuer
-	settled map[common.Address]*big.Int // per registered peer (by chain address): ReceivedSettlements
-	sumCred map[common.Address]*big.Int // sum of amounts the store credited per issuer
+	last    map[common.Address]*big.Int                  // highest accepted payout per stated issuer
+	settled map[common.Address]*big.Int                  // per registered peer (by chain address): ReceivedSettlements
+	sumCred map[common.Address]*big.Int                  // sum of amounts the store credited per issuer
 	sent    map[common.Address][]*chequePkg.SignedCheque // cheques of kind valid already delivered
 	names   map[common.Address]string
 	// direct: cheques are handed to the cheque store itself (no delivering peer), so only
